@@ -12,16 +12,17 @@ The verdict `c18Verdict` is the monitor of the `buflog` family (`c18Walk`: gap-f
 reported `durable_index` present with identical content, reloaded log = a run of consecutive entries of the log as
 it was at some earlier moment) applied to the model's own run. `C18Statement` = the verdict is clean for every case.
 
-As the code is (with fixes F7/F17 in) the statement is **false**, for four independent reasons, each with a
+As the code is (fixes F7, F17 and F72 in) the statement is **false**, for three independent reasons, each with a
 kernel-checked witness that is replayed on the real code by the corpus:
-* `false_stale_pending_max` (F72), `false_restart_unsynced` (F73), `false_io_race` (F75), `false_filestore` (F74).
+* `false_restart_unsynced` (F73), `false_io_race` (F75), `false_filestore` (F74).
+The witness of F72 (stale `pending_max`, fixed by 95c6d63) is clean now: `stalePending_clean`.
 
 Positive part, under exactly those excluded triggers — `crash_recovery_partial`: over the reference store, for every
 well-formed operation list run with the default arm order (command arm first, no timer tick forced while an operation
-waits), in which no ReplaceRange is handled while `pending_max` exceeds the new end of the log (`guardRun`, the
-trigger of F72), a crash after the run — process crash or power loss — reloads a gap-free log that contains every
-entry at or below the reported `durable_index` with identical content and is a run of consecutive entries of an
-earlier log. Proof: invariant `StoreOk` between operations (`execOp_storeOk`), `recovered_ok` at the crash.
+waits), a crash after the run (or after any prefix of it) — process crash or power loss — reloads a gap-free log that
+contains every entry at or below the reported `durable_index` with identical content and is a run of consecutive
+entries of an earlier log. Proof: invariant `StoreOk` between operations (`execOp_storeOk`), `recovered_ok` at the
+crash.
 -/
 namespace DEngine.C18
 open DEngine.BufLog
@@ -59,26 +60,18 @@ def ioRace : Case := { sim := true, ops :=
 def fileStore : Case := { sim := false, ops :=
   [ .append [e 1 1 0, e 2 1 0, e 3 1 0], .fca 2 1 [e 3 2 1, e 4 2 2] {}, .fca 2 1 [e 3 3 3] {}, .crash false ] }
 
-theorem stalePending_verdict : c18Verdict stalePending = some "c18-durable-never-written" := by decide +kernel
+/-- regression of F72 (fix 95c6d63 lowers `pending_max` and `durable_index` when the ReplaceRange is handled) -/
+theorem stalePending_clean : c18Verdict stalePending = none := by decide +kernel
 theorem restartUnsynced_verdict : c18Verdict restartUnsynced = some "c18-durable-not-synced" := by decide +kernel
 theorem ioRace_verdict : c18Verdict ioRace = some "c18-resurrected-entry" := by decide +kernel
 theorem fileStore_verdict : c18Verdict fileStore = some "c18-resurrected-entry" := by decide +kernel
 
-theorem false_stale_pending_max : ¬ C18Statement := fun h => by
-  have := h stalePending; rw [stalePending_verdict] at this; cases this
 theorem false_restart_unsynced : ¬ C18Statement := fun h => by
   have := h restartUnsynced; rw [restartUnsynced_verdict] at this; cases this
 theorem false_io_race : ¬ C18Statement := fun h => by
   have := h ioRace; rw [ioRace_verdict] at this; cases this
 theorem false_filestore : ¬ C18Statement := fun h => by
   have := h fileStore; rw [fileStore_verdict] at this; cases this
-
-/-- what goes wrong in F72, stated on the model state: `durable_index` is above the last index and the entry
-    appended afterwards is in memory, below `durable_index`, and in neither copy of the store -/
-theorem stalePending_state :
-    let s := (Sys.run (initSys true) (stalePending.ops.take 7)).1
-    s.buf.durable = 3 ∧ s.buf.mem = [e 1 1 0, e 2 3 1, e 3 3 2] ∧ s.store.v.ents = [e 1 1 0, e 2 3 1] ∧
-    s.store.d.ents = [e 1 1 0, e 2 3 1] := by decide +kernel
 
 /-- non-vacuity of the verdict: the F17 regression (truncate below durable, re-append, flush, graceful close,
     reopen) is clean now, under both crash semantics -/
@@ -89,11 +82,6 @@ theorem f17_regression_clean : c18Verdict (f17Regression false) = none ∧ c18Ve
   decide +kernel
 
 /-! ### the positive part -/
-
-/-- the guard evaluated along the model's run -/
-def guardRun : Sys → List Op → Bool
-  | _, [] => true
-  | s, op :: ops => guardOk s op && guardRun (execOp s op).1 ops
 
 /-- the logs seen during a run (most recent first), on top of `h` -/
 def histRun : Sys → List Op → List (List Entry) → List (List Entry)
@@ -107,56 +95,37 @@ theorem storeOk_init : StoreOk ({} : Sys) [[]] :=
     histOk := by intro h hh; simp at hh; subst hh; exact ⟨0, rfl⟩ }
 
 theorem run_storeOk : ∀ (ops : List Op) (s : Sys) (hist : List (List Entry)), StoreOk s hist → [] ∈ hist →
-    wfRun s.buf.abs ops = true → s.buf.segs.arch.length + budget ops ≤ maxSegs →
-    ops.all Op.plainSched = true → guardRun s ops = true →
+    wfRun s.buf.abs ops = true → ops.all Op.plainSched = true →
     StoreOk (Sys.run s ops).1 (histRun s ops hist) := by
   intro ops
   induction ops with
-  | nil => intro s hist h _ _ _ _ _; exact h
+  | nil => intro s hist h _ _ _; exact h
   | cons op ops ih =>
-    intro s hist h hnil hwf hb hplain hg
+    intro s hist h hnil hwf hplain
     simp only [wfRun, Bool.and_eq_true] at hwf
-    simp only [budget] at hb
     simp only [List.all_cons, Bool.and_eq_true] at hplain
-    simp only [guardRun, Bool.and_eq_true] at hg
     have hq : Quiet s := ⟨h.alive, by rw [h.queue]; simp⟩
-    have hstep := execOp_refines hq h.inv hwf.1 (by omega)
-    have hs' := execOp_storeOk h hnil hwf.1 (by omega) hplain.1 hg.1
+    have hstep := execOp_refines hq h.inv hwf.1
+    have hs' := execOp_storeOk h hnil hwf.1 hplain.1
     simp only [Sys.run, histRun]
-    exact ih (execOp s op).1 _ hs' (List.mem_cons_of_mem _ hnil) (by rw [hstep.abs]; exact hwf.2)
-      (by have := hstep.segs; omega) hplain.2 hg.2
+    exact ih (execOp s op).1 _ hs' (List.mem_cons_of_mem _ hnil) (by rw [hstep.abs]; exact hwf.2) hplain.2
 
 /-- **C18, positive part under the excluded triggers** (reference store). -/
-theorem crash_recovery_partial (ops : List Op) (hwf : wfRun {} ops = true) (hbud : budget ops ≤ maxSegs)
-    (hplain : ops.all Op.plainSched = true) (hg : guardRun {} ops = true) (power : Bool) :
+theorem crash_recovery_partial (ops : List Op) (hwf : wfRun {} ops = true)
+    (hplain : ops.all Op.plainSched = true) (power : Bool) :
     recoveredOk (histRun {} ops [[]]) (Sys.run {} ops).1.buf.mem (Sys.run {} ops).1.buf.durable
       ((Sys.run {} ops).1.reopen power).buf.mem (Sys.run {} ops).1.store.v.ents
       (some (Sys.run {} ops).1.store.d.ents) = none :=
-  recovered_ok (run_storeOk ops {} [[]] storeOk_init (by simp) (by simpa [Buf.abs] using hwf) (by simpa using hbud)
-    hplain hg) power
-
-theorem guardRun_take : ∀ (ops : List Op) (s : Sys) (n : Nat), guardRun s ops = true → guardRun s (ops.take n) = true := by
-  intro ops
-  induction ops with
-  | nil => intro s n h; simp [guardRun]
-  | cons op ops ih =>
-    intro s n h
-    cases n with
-    | zero => simp [guardRun]
-    | succ n =>
-      simp only [guardRun, Bool.and_eq_true] at h
-      simp only [List.take_succ_cons, guardRun, Bool.and_eq_true]
-      exact ⟨h.1, ih _ n h.2⟩
+  recovered_ok (run_storeOk ops {} [[]] storeOk_init (by simp) (by simpa [Buf.abs] using hwf) hplain) power
 
 /-- every crash point between two operations of such a run is covered -/
-theorem crash_recovery_partial_prefix (ops : List Op) (hwf : wfRun {} ops = true) (hbud : budget ops ≤ maxSegs)
-    (hplain : ops.all Op.plainSched = true) (hg : guardRun {} ops = true) (n : Nat) (power : Bool) :
+theorem crash_recovery_partial_prefix (ops : List Op) (hwf : wfRun {} ops = true)
+    (hplain : ops.all Op.plainSched = true) (n : Nat) (power : Bool) :
     recoveredOk (histRun {} (ops.take n) [[]]) (Sys.run {} (ops.take n)).1.buf.mem (Sys.run {} (ops.take n)).1.buf.durable
       ((Sys.run {} (ops.take n)).1.reopen power).buf.mem (Sys.run {} (ops.take n)).1.store.v.ents
       (some (Sys.run {} (ops.take n)).1.store.d.ents) = none :=
-  crash_recovery_partial (ops.take n) (C19.wfRun_take ops {} n hwf) (Nat.le_trans (C19.budget_take ops n) hbud)
-    (by simp only [List.all_eq_true] at hplain ⊢; exact fun x hx => hplain x (List.mem_of_mem_take hx))
-    (guardRun_take ops {} n hg) power
+  crash_recovery_partial (ops.take n) (C19.wfRun_take ops {} n hwf)
+    (by simp only [List.all_eq_true] at hplain ⊢; exact fun x hx => hplain x (List.mem_of_mem_take hx)) power
 
 /-- non-vacuity: appends, a flush, a conflict truncation below `durable_index`, a re-append, a purge, an IO step with
     a timer tick — all hypotheses hold, and the log is not empty at the crash -/
@@ -164,12 +133,12 @@ def partialDemo : List Op :=
   [ .append [e 1 1 0, e 2 1 0, e 3 1 0, e 4 1 0], .flush {}, .fca 2 1 [e 3 2 1] {}, .append [e 4 2 2],
     .purge 1 1 {}, .io { clock := true }, .fca 4 2 [e 5 2 3, e 6 3 4] {} ]
 
-example : wfRun {} partialDemo = true ∧ budget partialDemo ≤ maxSegs ∧ partialDemo.all Op.plainSched = true ∧
-    guardRun {} partialDemo = true ∧ (Sys.run {} partialDemo).1.buf.mem.length = 5 ∧
+example : wfRun {} partialDemo = true ∧ partialDemo.all Op.plainSched = true ∧
+    (Sys.run {} partialDemo).1.buf.mem.length = 5 ∧
     (Sys.run {} partialDemo).1.buf.durable = 4 := by decide +kernel
 
-/-- the F72 witness is excluded by the guard and by nothing else -/
-example : wfRun {} (stalePending.ops.take 7) = true ∧ (stalePending.ops.take 7).all Op.plainSched = true ∧
-    guardRun {} (stalePending.ops.take 7) = false := by decide +kernel
+/-- the former F72 witness satisfies the hypotheses: it is covered by the theorem now -/
+example : wfRun {} (stalePending.ops.take 7) = true ∧ (stalePending.ops.take 7).all Op.plainSched = true := by
+  decide +kernel
 
 end DEngine.C18
